@@ -195,6 +195,61 @@ def analyse(fn, direction):
     return out, sel_map[c], sel_map[mm]
 
 
+def analyse_hash_selection(fn, modns):
+    """_compute_key: `hash_algo = getattr(self.kex_engine, "hash_algo", None)`, then
+    `if hash_algo is None: hash_algo = <module-level name>`, and every `.digest()` is taken of a direct
+    `hash_algo(...)` call.  Returns (fallback name, fallback digest length)."""
+    sel = []
+    fallback = []
+    for node in ast.walk(fn):
+        if isinstance(node, ast.Assign) and len(node.targets) == 1 and isinstance(node.targets[0], ast.Name) \
+                and node.targets[0].id == "hash_algo":
+            sel.append(node)
+        if isinstance(node, ast.If):
+            t = node.test
+            if isinstance(t, ast.Compare) and isinstance(t.left, ast.Name) and t.left.id == "hash_algo" \
+                    and len(t.ops) == 1 and isinstance(t.ops[0], ast.Is) \
+                    and isinstance(t.comparators[0], ast.Constant) and t.comparators[0].value is None:
+                for st in node.body:
+                    if isinstance(st, ast.Assign) and len(st.targets) == 1 and \
+                            isinstance(st.targets[0], ast.Name) and st.targets[0].id == "hash_algo":
+                        if not isinstance(st.value, ast.Name):
+                            raise Unrecognised("_compute_key: fallback hash is not a plain name")
+                        fallback.append(st.value.id)
+                if node.orelse:
+                    raise Unrecognised("_compute_key: `if hash_algo is None` has an else branch")
+    if len(sel) != 2 or len(fallback) != 1:
+        raise Unrecognised("_compute_key: hash selection shape (%d assignments, %d fallbacks)"
+                           % (len(sel), len(fallback)))
+    first = [a for a in sel if not isinstance(a.value, ast.Name)]
+    if len(first) != 1:
+        raise Unrecognised("_compute_key: hash_algo assignments")
+    v = first[0].value
+    if not (isinstance(v, ast.Call) and isinstance(v.func, ast.Name) and v.func.id == "getattr"
+            and len(v.args) == 3 and _is_self_attr(v.args[0], "kex_engine")
+            and isinstance(v.args[1], ast.Constant) and v.args[1].value == "hash_algo"
+            and isinstance(v.args[2], ast.Constant) and v.args[2].value is None and not v.keywords):
+        raise Unrecognised("_compute_key: hash_algo is not getattr(self.kex_engine, 'hash_algo', None)")
+    ndigest = 0
+    for node in ast.walk(fn):
+        if isinstance(node, ast.Call) and isinstance(node.func, ast.Attribute) and node.func.attr in (
+                "digest", "hexdigest"):
+            inner = node.func.value
+            if not (node.func.attr == "digest" and isinstance(inner, ast.Call) and isinstance(inner.func, ast.Name)
+                    and inner.func.id == "hash_algo"):
+                raise Unrecognised("_compute_key: a digest is taken of something other than hash_algo(...)")
+            ndigest += 1
+    if ndigest != 2:
+        raise Unrecognised("_compute_key: expected two hash_algo(...).digest() calls, found %d" % ndigest)
+    name = fallback[0]
+    if name not in modns:
+        raise Unrecognised("_compute_key: fallback hash %r is not a module-level name" % name)
+    ds = modns[name]().digest_size
+    if not isinstance(ds, int) or isinstance(ds, bool):
+        raise Unrecognised("fallback hash digest_size")
+    return name, ds
+
+
 HEADER = """(* GENERATED by gen/c04.py from %s -- do not edit.
    Key letters and requested sizes of Transport._activate_inbound / _activate_outbound,
    and the cipher / MAC size tables (Transport._cipher_info / _mac_info). *)
@@ -214,6 +269,10 @@ Inductive size_src := SzIvOrBlock | SzKey | SzBlock | SzMacDigest | SzMacTrunc.
 """
 
 
+def cmt(s):
+    return s.replace("*)", "* )").replace("(*", "( *")
+
+
 def coq_bytes(s):
     return "[" + ";".join(str(b) for b in s.encode("ascii")) + "]"
 
@@ -225,12 +284,13 @@ def generate(repo):
     for node in ast.walk(tree):
         if isinstance(node, ast.ClassDef) and node.name == "Transport":
             for st in node.body:
-                if isinstance(st, ast.FunctionDef) and st.name in ("_activate_inbound", "_activate_outbound"):
+                if isinstance(st, ast.FunctionDef) and st.name in ("_activate_inbound", "_activate_outbound",
+                                                                   "_compute_key"):
                     if st.name in fns:
                         raise Unrecognised("duplicate method " + st.name)
                     fns[st.name] = st
-    if set(fns) != {"_activate_inbound", "_activate_outbound"}:
-        raise Unrecognised("Transport._activate_inbound/_activate_outbound not found")
+    if set(fns) != {"_activate_inbound", "_activate_outbound", "_compute_key"}:
+        raise Unrecognised("Transport._activate_inbound/_activate_outbound/_compute_key not found")
     res = {}
     sels = {}
     for name, d in (("_activate_inbound", "Inbound"), ("_activate_outbound", "Outbound")):
@@ -267,6 +327,19 @@ def generate(repo):
             raise Unrecognised("mac %s: non-integer size" % name)
         macs.append((name, ds, info["size"]))
 
+    import paramiko.transport as tmod
+    fb_name, fb_len = analyse_hash_selection(fns["_compute_key"], vars(tmod))
+    kexes = []
+    for name, cls in T._kex_info.items():
+        ha = getattr(cls, "hash_algo", None)     # what getattr(self.kex_engine, "hash_algo", None) will see
+        if ha is None:
+            kexes.append((name, None))
+        else:
+            ds = ha().digest_size
+            if not isinstance(ds, int) or isinstance(ds, bool):
+                raise Unrecognised("kex %s: digest_size" % name)
+            kexes.append((name, ds))
+
     out = [HEADER % "paramiko/transport.py"]
     out.append("Definition gen_letter (r : role) (d : dir) (p : purpose) : Z :=\n  match r, d, p with\n")
     for r in ("Client", "Server"):
@@ -289,11 +362,18 @@ def generate(repo):
     out.append("(* name, block-size, key-size, iv-size (if given), is_aead *)\n")
     out.append("Definition gen_ciphers : list (list Z * Z * Z * option Z * bool) := [\n")
     out.append(";\n".join("  (%s, %d, %d, %s, %s)   (* %s *)" % (
-        coq_bytes(n), bs, ks, "None" if iv is None else "Some %d" % iv, "true" if ae else "false", n)
+        coq_bytes(n), bs, ks, "None" if iv is None else "Some %d" % iv, "true" if ae else "false", cmt(n))
         for n, bs, ks, iv, ae in ciphers))
     out.append("\n].\n\n(* name, digest_size of the hash class, (possibly truncated) transmitted size *)\n")
     out.append("Definition gen_macs : list (list Z * Z * Z) := [\n")
-    out.append(";\n".join("  (%s, %d, %d)   (* %s *)" % (coq_bytes(n), ds, sz, n) for n, ds, sz in macs))
+    out.append(";\n".join("  (%s, %d, %d)   (* %s *)" % (coq_bytes(n), ds, sz, cmt(n)) for n, ds, sz in macs))
+    out.append("\n].\n\n(* _compute_key: digest length of the hash used when the kex engine declares no hash_algo (%s) *)\n"
+               % fb_name)
+    out.append("Definition gen_fallback_hash_len : Z := %d.\n\n" % fb_len)
+    out.append("(* Transport._kex_info: kex name, digest length of the class's hash_algo (None = not declared) *)\n")
+    out.append("Definition gen_kex_hashes : list (list Z * option Z) := [\n")
+    out.append(";\n".join("  (%s, %s)   (* %s *)" % (coq_bytes(n), "None" if d is None else "Some %d" % d, cmt(n))
+                          for n, d in kexes))
     out.append("\n].\n")
     return {"C04_gen.v": "".join(out)}
 
